@@ -27,6 +27,9 @@ of either sign, extra-column names on both sides of 'branch' in the sort order, 
 numpy integers, float32, ndarray ranges; edit "two points swapped" (S46-C05: the order of the points is not hashed) and a metadata entry named
 `data_hash` (S47-C05: overwritten by the hashing function).  A member whose failing case matches a known finding is left out of the pairwise
 comparison with the Lean model (Props/C05/Findings.lean states both deviations).
+Round 8 triage (T3-C05): branch marks handed over as ONE pandas Series whose labels are / are not those of the points (`_marks_series_section`);
+the unchanged tree aligns such a Series on row labels (S63-C05, recorded; Props/C05/Findings.lean `alignMarks…`), matched only when the stored marks
+are exactly the label-aligned ones.
 """
 import copy
 import json
@@ -365,13 +368,84 @@ def _marks_of(pd, iso):
     return [None if pd.isna(b) else (int(b) if float(b).is_integer() else float(b)) for b in iso.data_raw["branch"].tolist()]
 
 
+MARK_SERIES_LABELS = ["same as the points", "default", "shift", "str", "permuted", "overlap-shift"]
+
+
+def _marks_series_section(ck, pg, pd, rng, i, gsig, base, cols, marks, common, kw, ref, idr, detail):
+    """The branch marks handed over as ONE pandas Series (list-like, "iterable" in the constructor's documentation) beside a table / two point Series /
+    two lists: the same marks in the same order are the same content whatever row labels the Series or the points carry (clause "any row labelling",
+    "lists, arrays or tables").  Reference: the same marks as a list (tied to the guessing route by the caller).
+    Finding S63-C05 (unchanged tree): `self.data_raw['branch'] = <Series>` aligns the Series on row labels; the signature gets
+    `cause = "marks Series aligned on the row labels of the points"` ONLY when the stored marks are exactly what that alignment gives
+    (prediction: the marks Series assigned into an empty frame with the labels of the points); anything else stays a violation."""
+    import numpy as np
+    n = len(marks)
+    for rep in range(3):
+        tkind = rng.choice(["default", "default"] + GUESS_LABEL_KINDS)
+        skind = rng.choice(MARK_SERIES_LABELS)
+        dtype = rng.choice(["int64", "float64", "bool", "int8"])
+        points = rng.choice(["table", "table", "two Series", "lists"])
+        df = base if tkind == "default" else _relabel(pd, rng, base, tkind)
+        if points == "lists":
+            tkind, df = "default", base
+        if skind == "same as the points":
+            sidx = df.index
+        elif skind == "default":
+            sidx = pd.RangeIndex(n)
+        elif skind == "shift":
+            sidx = pd.RangeIndex(7, 7 + n)
+        elif skind == "str":
+            sidx = pd.Index([f"r{j}" for j in range(n)])
+        elif skind == "permuted":
+            lab = list(range(n))
+            rng.shuffle(lab)
+            sidx = pd.Index(lab)
+        else:
+            k = rng.randrange(1, max(2, n))
+            sidx = pd.RangeIndex(k, k + n)
+        vals = [bool(m) for m in marks] if dtype == "bool" else [int(m) for m in marks]
+        ser = pd.Series(np.array(vals, dtype=dtype), index=sidx)
+        ssig = {**gsig, "route": "branch marks handed over as a pandas Series", "labels": tkind, "mark_labels": skind, "container": points + " + marks Series"}
+        sdet = lambda **k: detail(row_labels=[str(x) for x in df.index.tolist()][:40], mark_labels=[str(x) for x in sidx.tolist()][:40], mark_dtype=dtype, **k)          # noqa
+        # what an alignment on labels would store (classification of the known finding only)
+        try:
+            tmp = pd.DataFrame(index=(df.index if points != "lists" else pd.RangeIndex(n)))
+            tmp["branch"] = ser
+            aligned = [None if pd.isna(b) else int(b) for b in tmp["branch"].tolist()]
+        except Exception:  # noqa
+            aligned = None
+        try:
+            if points == "table":
+                other = pg.PointIsotherm(isotherm_data=df, branch=ser, **kw, **common)
+            elif points == "two Series":
+                if list(base.columns) != ["pressure", "loading"]:
+                    continue
+                other = pg.PointIsotherm(pressure=df["pressure"], loading=df["loading"], branch=ser, **common)
+            else:
+                if list(base.columns) != ["pressure", "loading"]:
+                    continue
+                other = pg.PointIsotherm(pressure=list(cols["pressure"]), loading=list(cols["loading"]), branch=ser, **common)
+            oid, om = other.iso_id, _marks_of(pd, other)
+            eq = (other == ref) and (ref == other)
+        except Exception as e:  # noqa
+            ck.fail_case({**ssig, "clause": "route refused"}, sdet(error=repr(e)[:300]))
+            continue
+        ck.count(("marks-series", tkind, skind, points, i, rep), bucket="route:marks as a pandas Series:" + ("its labels = the labels of the points" if list(sidx) == list(df.index) else "other labels than the points"))
+        if list(ser.index) != list(sidx) or ser.tolist() != vals:
+            ck.fail_case({**ssig, "clause": "the caller's marks Series is unchanged"}, sdet())
+        if oid != idr or not eq or om != marks:
+            if aligned is not None and om == aligned and aligned != marks:
+                ssig["cause"] = "marks Series aligned on the row labels of the points"
+            ck.fail_case({**ssig, "clause": "same content, different identifier" if oid != idr else ("same identifier, but == says different" if not eq else "same points, other marks stored")},
+                         sdet(ids=[idr, oid], marks_handed_over=vals, marks_stored=om, marks_if_aligned_on_labels=aligned))
+
+
 def _guessed_marks_section(ck, pg, c, i, sig):
     """Clause "any row labelling" for inputs WITHOUT branch marks (round 8, C05-m2: all routes above hand the marks over — as argument, column or keyword —
     so the guessing path `PointIsotherm(branch='guess')` (the default) / `ModelIsotherm(isotherm_data=<no branch column>)` never met a table whose
     row labels are not 0..n-1).  The marks are a function of the SEQUENCE of pressures; the reference is the same tree on plain lists / the table with
     default labels, tied to the explicit-marks routes by `explicit marks = the guessed ones -> same identifier`."""
-    # TODO (candidate defect of the unchanged tree, reported, kept out of the generators): marks handed over as a pandas Series whose labels differ from the
-    # table's — PointIsotherm(isotherm_data=df(index 1..4), ..., branch=pandas.Series([0,0,0,1])) stores the marks [0.0, 0.0, 1.0, NaN] (aligned on labels).
+    # Marks handed over as a pandas Series: see `_marks_series_section` (finding S63-C05: a Series whose labels differ from the table's is aligned on labels).
     import pandas as pd
     rng = ck.rng
     mat = c["material"] if not c["material_props"] else {"name": c["material"], **c["material_props"]}
@@ -421,6 +495,8 @@ def _guessed_marks_section(ck, pg, c, i, sig):
             ck.fail_case({**gsig, "clause": "same content, different identifier", "labels": "default", "against": "the same marks handed over as a list"}, detail(ids=[idr, ex.iso_id], marks=_marks_of(pd, ex)))
     except Exception as e:  # noqa
         ck.fail_case({**gsig, "clause": "route refused", "labels": "default", "against": "the same marks handed over as a list"}, detail(error=repr(e)[:300]))
+
+    _marks_series_section(ck, pg, pd, rng, i, gsig, base, cols, marks, common, kw, ref, idr, detail)
 
     def same(other, labels, container, lab=None, ref=ref, idr=idr):
         try:
